@@ -113,6 +113,66 @@ class MaskedElem(object):
         return ip.NOTIMPL
 
 
+class NdVal(object):
+    """the ndarray seen through np.asarray(element) / element.asarray(): a VIEW of the element's data when `base` is set (in-place arithmetic writes
+    through to the element, as NumPy does), a fresh array otherwise; pointwise contents at a generic index"""
+
+    def __init__(self, cont=None, base=None):
+        self._cont, self.base = cont, base
+
+    @property
+    def cont(self):
+        return content(self.base) if self.base is not None else self._cont
+
+    nd_content = cont
+
+    def np_conv(self, I, fr, kwargs, how):
+        if kwargs.get('dtype') is not None:
+            raise Unsupported('np.%s(array, dtype=...) of an element view' % how)
+        return self if how == 'asarray' else NdVal(self.cont)
+
+    def pv_getattr(self, I, fr, name):
+        if name == 'copy':
+            return ip.Builtin('copy', lambda I2, fr2, a, k: NdVal(self.cont))
+        raise Unsupported('ndarray view .%s' % name)
+
+    def pv_inplace(self, I, fr, iname, other):
+        return self.pv_binop(I, fr, iname, other)
+
+    def pv_binop(self, I, fr, name, other):
+        op = name.strip('_')
+        inplace = op in ('imul', 'iadd', 'isub', 'itruediv')
+        if inplace:
+            op = op[1:]
+        refl = op in ('rmul', 'radd', 'rsub', 'rtruediv')
+        if refl:
+            op = op[1:]
+        if op not in ('mul', 'add', 'sub', 'truediv'):
+            return ip.NOTIMPL
+        if isinstance(other, NdVal):
+            o, target = other.cont, None
+        elif isinstance(other, ip.Obj) and hasattr(other, 'content'):
+            if inplace:
+                raise Unsupported('ndarray view (in-place) element')
+            o, target = content(other), builder(I._getattr(other, 'space', fr))     # ndarray (op) element is an element (__array_ufunc__ / __array_priority__)
+        elif I.scalar_kind(other) is not None:
+            o, target = VConst(other), None
+        else:
+            return ip.NOTIMPL
+        a, b = (o, self.cont) if refl else (self.cont, o)
+        val = _pw({'truediv': 'div'}.get(op, op), [a, b])
+        if inplace:
+            if self.base is not None:
+                set_content(self.base, val)
+                fr.st.events.append(('write', self.base))
+            else:
+                self._cont = val
+            return self
+        if target is not None:
+            return target.element(cont=val)
+        return NdVal(val)
+
+
 _UNARY = {'absolute': 'abs', 'abs': 'abs', 'sign': 'sign', 'sqrt': 'sqrt', 'square': 'square', 'exp': 'exp', 'log': 'log',
           'logical_not': 'not', 'conj': 'conj', 'conjugate': 'conj', 'negative': 'neg', 'real': 'real', 'imag': 'imag'}
 _BINARY = {'maximum': 'maximum', 'minimum': 'minimum', 'divide': 'div', 'true_divide': 'div', 'multiply': 'mul', 'add': 'add',
@@ -294,6 +354,11 @@ def tensor_cuts():
             return None
         raise Unsupported('Tensor.__setitem__(%r)' % (idx,))
 
+    def asarray(I, fr, self, out=None):
+        if out is not None:
+            raise Unsupported('Tensor.asarray(out=...)')
+        return NdVal(base=self)
+    cuts[BT + 'Tensor.asarray'] = asarray
     cuts[BT + 'Tensor.__getitem__'] = getitem
     cuts[BT + 'Tensor.__setitem__'] = setitem
 
